@@ -43,6 +43,8 @@ class Harness:
         ex.stub(EXPR_CTORS, lambda ex, st, c, A: Agg('struct', '~Expr::' + re.search(EXPR_CTORS, c).group(2), None, list(A)), 'Expr::{and,or,val,ite,..} residual constructors (terms)')
         ex.stub(r'<.*Expr as From<(?:[\w:]*::)?Value>>::from$', lambda ex, st, c, A: Agg('struct', '~Expr::from_value', None, list(A)), 'Expr::from(Value) (term)')
         ex.stub(r'(^|::)Expr::(<.*>::)?source_loc$', lambda ex, st, c, A: Opaque('Option<&Loc>', 'loc'), 'Expr::source_loc (opaque)')
+        ex.stub(r'<(smol_str::)?SmolStr as Deref>::deref$', lambda ex, st, c, A: A[0], 'SmolStr::deref (the string itself)')
+        ex.stub(r'<LazyLock<.*Name> as Deref>::deref$', lambda ex, st, c, A: ex.new_cell(st, Opaque('ast::name::Name', 'static name'), 'name'), 'static Name (opaque)')
         ex.stub(r'<Arc<.*Expr> as AsRef<.*>>::as_ref$', lambda ex, st, c, A: Ref(A[0].fid, ('field', A[0].place, 0, '?')), 'Arc<Expr>::as_ref')
 
     def sub(self, name):
@@ -67,6 +69,8 @@ class Harness:
         e = self._resolve(st, A[1])
         s = self.by_expr.get(getattr(e, 'id', None))
         if s is None:
+            if ex.havoc_unknown:
+                return Opaque('std::result::Result<ast::partial_value::PartialValue, evaluator::err::EvaluationError>', 'evaluation of an expression outside the node')
             raise NotEncoded(f'partial_interpret of an unknown expression {e!r}')
         PV = 'ast::partial_value::PartialValue'
         return [([s.out == 0], ok(Agg('variant', PV, 'Value', [s.val.v]))), ([s.out == 1], ok(Agg('variant', PV, 'Residual', [s.res]))), ([s.out == 2], err(s.err))]
@@ -77,7 +81,7 @@ class Harness:
         for c in o.log:
             if c.tag.startswith('Evaluator::partial_interpret'):
                 e = self._resolve(o.st, c.args[1])
-                out.append(self.by_expr[e.id].name)
+                out.append(self.by_expr[e.id].name if getattr(e, 'id', None) in self.by_expr else '?')
         return out
 
     # ---- outcome classification (python-level descriptors; terms only for booleans)
@@ -85,6 +89,8 @@ class Harness:
         v = o.val
         if o.kind != 'ret':
             return ('panic', o.msg)
+        if not isinstance(v, Agg):
+            return ('opaque', repr(v)[:60])
         if v.variant == 'Err':
             e = v.fields[0]
             if getattr(e, 'id', None) in self.by_err:
@@ -95,8 +101,8 @@ class Harness:
                 exp = te[0]
                 expn = exp.variant.lower() if isinstance(exp, Agg) and exp.variant else 'advice'
                 return ('type_error', expn, about.name if about else '?')
-            if isinstance(e, Agg) and e.name == 'EvaluationError':
-                return ('error', e.fnames[0] if e.fnames else '?', e)
+            if isinstance(e, Agg) and e.variant and 'EvaluationError' in (e.name or ''):
+                return ('error', e.variant)
             return ('other_err', repr(e)[:60])
         pv = v.fields[0]
         if pv.variant == 'Value':
